@@ -35,7 +35,8 @@ SPEC = dict(
             "shared-success-asserted", "quic-dial-succeeded", "quic-dial-succeeded-after-lost-datagrams",
             "quic-dead-address-handshake-timeout", "quic-dead-address-dial-timeout", "tcp-dial-staggered-behind-quic-in-flight",
             "quic-dial-cancelled-when-tcp-won", "tcp-dial-cancelled-when-quic-won", "quic-hole-punch-dial",
-            "caller-got-quic-connection",
+            "caller-got-quic-connection", "hole-punch-got-the-inbound-connection", "hole-punch-gave-up-at-instant-of-target-dial",
+            "hole-punch-served-at-instant-of-target-dial", "overlapping-hole-punch-turned-away", "target-dialed-dialer",
             "outcome-ok", "outcome-dial-error", "outcome-ctx-cancelled", "outcome-ctx-deadline"],
     real=["QUIC stratum: p2p/transport/quic, quicreuse, quic-go over simnet's UDP model — instrumented",
           "swarm: dial_sync, dial_worker, limiter, swarm_dial, dial_ranker, dial_error, back-off, conns — instrumented",
